@@ -1,5 +1,6 @@
 (* Extraction of the client life-cycle model for the C12 correspondence driver.
    ExtrOcamlBasic only; no Extract Constant / Extract Inductive of our own. *)
 From Coq Require Import ExtrOcamlBasic.
-From SV Require Import Lib.Bytes Lib.ExtractBase Model.Wire Model.ClientLife Gen.Consts.
-Extraction "c12_model.ml" extract_anchor run main_body handshake sync_ok done_ok.
+From SV Require Import Lib.Bytes Lib.ExtractBase Model.Wire Model.ClientLife Model.FwInit Gen.Consts.
+Extraction "c12_model.ml" extract_anchor run main_body handshake sync_ok done_ok
+  fw_init try_order cand_result.
